@@ -886,8 +886,62 @@ class _AssertRaise(ast.NodeTransformer):
         return n
 
 
+class _CondVarFold(ast.NodeTransformer):
+    """`flag = <pure expression>` directly followed by `if flag:` / `if not flag:` / `while`-free, where every read of `flag` in the
+    function is such a test directly after an assignment of it: the flag only names the condition (it may be assigned several times,
+    e.g. once before and once after an await) -- the expression is put back into the test."""
+
+    def _fold(self, fn):
+        loads = [n for n in _own_nodes(fn) if isinstance(n, ast.Name) and isinstance(n.ctx, ast.Load)]
+        params = {a.arg for a in fn.args.posonlyargs + fn.args.args + fn.args.kwonlyargs}
+        pairs = {}      # name -> [(list, index)]
+        ok_loads = {}
+
+        def scan(lst):
+            for i, st in enumerate(lst):
+                if (isinstance(st, ast.Assign) and len(st.targets) == 1 and isinstance(st.targets[0], ast.Name) and i + 1 < len(lst) and isinstance(lst[i + 1], ast.If)
+                        and _is_pure(st.value) and st.targets[0].id not in params):
+                    v = st.targets[0].id
+                    t = lst[i + 1].test
+                    core = t.operand if isinstance(t, ast.UnaryOp) and isinstance(t.op, ast.Not) else t
+                    if isinstance(core, ast.Name) and core.id == v and not any(isinstance(x, ast.Name) and x.id == v for x in ast.walk(st.value)):
+                        pairs.setdefault(v, []).append((lst, st, lst[i + 1]))
+                        ok_loads.setdefault(v, []).append(core)
+            for st in lst:
+                for f in ("body", "orelse", "finalbody"):
+                    sub = getattr(st, f, None)
+                    if isinstance(sub, list) and not isinstance(st, (ast.FunctionDef, ast.AsyncFunctionDef, ast.ClassDef)):
+                        scan(sub)
+                for h in getattr(st, "handlers", []) or []:
+                    scan(h.body)
+        scan(fn.body)
+        for v, ps in pairs.items():
+            stores = [n for n in _own_nodes(fn) if isinstance(n, ast.Name) and n.id == v and isinstance(n.ctx, (ast.Store, ast.Del))]
+            if len(stores) != len(ps):
+                continue     # assigned somewhere else as well
+            if any(x.id == v and not any(x is y for y in ok_loads[v]) for x in loads):
+                continue     # read somewhere else
+            for lst, st, nxt in ps:
+                if isinstance(nxt.test, ast.UnaryOp) and isinstance(nxt.test.op, ast.Not):
+                    nxt.test = ast.copy_location(ast.UnaryOp(op=ast.Not(), operand=st.value), nxt.test)
+                else:
+                    nxt.test = st.value
+                for k, x in enumerate(lst):
+                    if x is st:
+                        del lst[k]
+                        break
+
+    def visit_FunctionDef(self, n):
+        self.generic_visit(n)
+        self._fold(n)
+        return n
+
+    visit_AsyncFunctionDef = visit_FunctionDef
+
+
 def lower_ifexp(tree):
     tree = _AssertRaise().visit(tree)
+    tree = _CondVarFold().visit(tree)
     tree = _Match().visit(tree)
     tree = _Walrus().visit(tree)
     tree = _NextGen().visit(tree)
